@@ -87,3 +87,40 @@ func VC_C01_cancelled_stub_forwards() {
 }
 
 func vTargetC01(i int) int { return i * 3 }
+
+func vC01Two(a int, s string) (int, string) { return a, s }
+
+func vC01TwoCb(a int, s string) (int, string) { return a*3 + 1, s + "-mock" }
+
+// VC_C01_concurrent_callers: two goroutines call the mocked function at the same time
+// (under an arbitrary logging configuration, so also through the debug wrapper): each
+// caller receives the replacement's results for its own arguments; unsynchronised sharing
+// between the calls is reported as a race.
+func VC_C01_concurrent_callers() {
+	vEnv()
+	vPristine(vC01Two)
+	b := Create()
+	if verifBool("stub") {
+		b.Func(vC01Two).Return(7, "stub")
+	} else {
+		b.Func(vC01Two).Apply(vC01TwoCb)
+	}
+	stubbed := vDiverted(vC01Two)
+	verifAssert(stubbed, "C01.concurrent.mock-installed")
+	f := vInvoke(vC01Two, "C01.concurrent").(func(int, string) (int, string))
+	a1, a2 := verifInt("a1"), verifInt("a2")
+	var r1, r2 int
+	var s1, s2 string
+	verifSpawn(func() { r1, s1 = f(a1, "x") })
+	verifSpawn(func() { r2, s2 = f(a2, "y") })
+	verifJoin()
+	if s1 == "stub" {
+		verifAssert(r1 == 7 && r2 == 7 && s2 == "stub", "C01.concurrent.stubbed-results-delivered")
+	} else {
+		verifAssert(r1 == a1*3+1 && s1 == "x-mock", "C01.concurrent.first-caller-gets-own-results")
+		verifAssert(r2 == a2*3+1 && s2 == "y-mock", "C01.concurrent.second-caller-gets-own-results")
+	}
+	b.Reset()
+	verifAssert(!vDiverted(vC01Two), "C01.concurrent.reset-restores")
+	verifReached("C01.concurrent")
+}
